@@ -61,6 +61,7 @@ type FuncContract struct {
 	CheckNil bool
 	NoPanic  bool
 	Loops    map[int]*LoopSpec
+	LoopAnchors map[int]string // negative pseudo-ordinals of loops named by source text
 	Cuts     []*CutSpec
 	Calls    []*CallSpec
 	Lets     []*Clause // let name = expr (evaluated at entry)
@@ -235,6 +236,29 @@ func ParseContractFile(path, pkgPath string) (*ContractFile, error) {
 			}
 			last = nil
 		case "loop":
+			// a loop is named by its ordinal (1-based, by position) or by the source text of its
+			// `for` line: loop "for _, x := range xs" ... (robust against loops added elsewhere)
+			if strings.HasPrefix(rest, "\"") {
+				q, err := strconv.QuotedPrefix(rest)
+				if err != nil {
+					return nil, fmt.Errorf("%s:%d: bad loop anchor", path, ln)
+				}
+				anchor, _ := strconv.Unquote(q)
+				ord := 0
+				for k, a := range cur.LoopAnchors {
+					if a == anchor {
+						ord = k
+					}
+				}
+				if ord == 0 {
+					ord = -(len(cur.LoopAnchors) + 1)
+					if cur.LoopAnchors == nil {
+						cur.LoopAnchors = map[int]string{}
+					}
+					cur.LoopAnchors[ord] = anchor
+				}
+				rest = fmt.Sprintf("%d %s", ord, strings.TrimSpace(rest[len(q):]))
+			}
 			fs := strings.Fields(rest)
 			if len(fs) < 2 {
 				return nil, fmt.Errorf("%s:%d: bad loop clause", path, ln)
